@@ -49,7 +49,8 @@ type Out struct {
 	RealHost string            `json:"real_host"`
 	RealUser string            `json:"real_user"`
 	RealHome string            `json:"real_home"`
-	Harness  string            `json:"harness,omitempty"` // harness-side problem (inconclusive)
+	Harness  string            `json:"harness,omitempty"`  // harness-side problem (inconclusive)
+	FirstOS  string            `json:"first_os,omitempty"` // shared-globals: output that reached the OS of the first evaluation
 }
 
 type workerState struct {
@@ -350,6 +351,35 @@ func runCase(c *CaseData, out *Out) {
 	default:
 		out.Harness = "unknown route " + c.Route
 		return
+	}
+	if c.Ctx == "shared-globals" {
+		// the first evaluation: same globals map, an OS of its own, touching stdio, environment and cwd
+		shared := risor.NewConfig(risor.WithConcurrency(), risor.WithGlobal("verif_mark", mark)).Globals()
+		first := newRecOS(base, populate(ws.b))
+		fopts := []risor.Option{risor.WithoutDefaultGlobals(), risor.WithGlobals(shared)}
+		fctx := base
+		if c.Route == "withos" {
+			fopts = append(fopts, risor.WithOS(first))
+		} else {
+			fctx = ros.WithOS(fctx, first)
+		}
+		prime := `os.stdout.write("VERIFSENT_first o\n"); os.stderr.write("VERIFSENT_first e\n"); [type(os.stdin), os.getenv("` + envCanary + `"), os.getwd(), len(os.environ()) > 0]`
+		if _, perr := risor.Eval(fctx, prime, fopts...); perr != nil {
+			out.Harness = "shared-globals: first evaluation failed: " + perr.Error()
+			return
+		}
+		opts = []risor.Option{risor.WithoutDefaultGlobals(), risor.WithGlobals(shared)}
+		if c.Route == "withos" {
+			opts = append(opts, risor.WithOS(supplied))
+		}
+		defer func() {
+			// nothing of the second evaluation may have reached the first evaluation's OS
+			if o := first.stdout.contents(); o != "VERIFSENT_first o\n" {
+				out.FirstOS = "stdout of the first evaluation's OS: " + trunc(o, 300)
+			} else if e := first.stderr.contents(); e != "VERIFSENT_first e\n" {
+				out.FirstOS = "stderr of the first evaluation's OS: " + trunc(e, 300)
+			}
+		}()
 	}
 	if c.Ctx == "module" {
 		names := risor.NewConfig(opts...).GlobalNames()
